@@ -29,9 +29,9 @@ CHECKS = [
     },
     {
         "property_id": "C01",
-        "technique": "Lean 4 proof about a cache-free reference semantics (identity, at-most-once, failure not cached, thrown value delivered) + executable model of the code's four caches tied to it by the cache-transparency theorem (when present) and by differential correspondence with the real require()",
+        "technique": "Lean 4 proof about a cache-free reference semantics (identity, at-most-once, failure not cached, thrown value delivered) + executable model of the code's four caches tied to it by the cache-transparency theorem (simulation proof, all trees and histories) and by differential correspondence with the real require()",
         "text": "The property is stated as a reference semantics without request caches (GN/Require/Ideal.lean): a file has one module identity while in progress or evaluated, is registered before its body runs (cycles), a failed evaluation leaves nothing cached, the thrown value is what the requirer gets. Theorems prove these for every tree, body and state. The code (resolve/loadNative/loadModule with four caches, forget on failure) is transcribed in GN/Require/Eval.lean; on every run the real require() is executed on generated trees and histories and its event log must equal both the model's (with loader calls) and the reference semantics' (without).",
-        "note": "Trusted: Lean kernel, the harness, goja call-stack/exception behaviour. Evaluation is big-step with fuel. Cache transparency (model log = reference log for all trees and histories) is proved in GN/Require/CacheLemmas.lean when listed in the evidence; otherwise it is observed on every generated case.",
+        "note": "Trusted: Lean kernel, the harness, goja call-stack/exception behaviour. Evaluation is big-step with fuel. Cache transparency (theorem code_equals_reference: the model of the code with its four caches produces exactly the reference log for all trees, registration sets and histories, fuel permitting) is proved in GN/Require/CacheLemmas.lean by a simulation; its failed first attempt exposed the 'node:'-alias shadowing defect repaired in 3120545.",
     },
     {
         "property_id": "C02",
